@@ -184,6 +184,9 @@ func runCheck(id, tier string, seed int64, only string) int {
 		witnesses = nil
 	}
 	budget := 240
+	if tier == "thorough" {
+		budget = 1500
+	}
 	if b, ok := spec.Budget[tier]; ok {
 		budget = b
 	}
